@@ -328,3 +328,12 @@ impl<F: ff::Field> subtle::ConstantTimeEq for QuadExtField<F> {
         self.c0.ct_eq(&other.c0) & self.c1.ct_eq(&other.c1)
     }
 }
+
+/// Verification hook (feature `verif-hooks`, add-only): read access to the two coefficients.
+#[cfg(feature = "verif-hooks")]
+impl<F: ff::Field> QuadExtField<F> {
+    /// verif hook: the coefficients `(c0, c1)` of `c0 + c1·X`.
+    pub fn verif_coeffs(&self) -> (F, F) {
+        (self.c0, self.c1)
+    }
+}
